@@ -324,7 +324,10 @@ func (g *gen) next() (Op, bool) {
 		id, _ := anyTask()
 		return Op{"Log", M{"t": id, "lvl": g.picks([]string{"INFO", "ERROR"}), "msg": g.picks([]string{"m", "two words", "ERROR x"})}}, true
 	case w < 85 && len(tids) > 0:
-		id, _ := anyTask()
+		id, t := anyTask()
+		if !t.AtTime().IsZero() && r.Intn(10) < 6 {
+			return Op{"At", M{"t": id, "when": 0}}, true // clear an existing schedule
+		}
 		return Op{"At", M{"t": id, "when": g.pick([]int{0, (h.nowH + 2) * TU, (H + 3) * TU})}}, true
 	case w < 87 && len(tids) > 0:
 		id, _ := anyTask()
